@@ -354,6 +354,15 @@ func (r *rewriter) transform(m ast.Node) (string, bool) {
 			r.needsRT = true
 			return fmt.Sprintf("simrt.ChanRecv(%s)", r.text(n.X)), true
 		}
+		if cl, ok := n.X.(*ast.CompositeLit); ok && n.Op == token.AND {
+			if tv, ok := r.info.Types[cl]; ok {
+				if _, isStruct := tv.Type.Underlying().(*types.Struct); isStruct {
+					// the birth of an object: gives pointer-keyed maps a replayable order
+					r.needsRT = true
+					return fmt.Sprintf("simrt.Born(&%s)", r.text(cl)), true
+				}
+			}
+		}
 		return "", false
 
 	case *ast.CallExpr:
@@ -402,6 +411,10 @@ func deterministicKey(t types.Type) bool {
 				return false
 			}
 		}
+		return true
+	case *types.Pointer, *types.Interface:
+		// ordered by a rendering of what they point at (simrt.canonical); keys that
+		// render alike are counted per run as ambiguous
 		return true
 	}
 	return false
